@@ -125,32 +125,42 @@ namespace rkcommon {
     inline IntrusivePtr<T> &IntrusivePtr<T>::operator=(
         const IntrusivePtr &input)
     {
-      if (input.ptr)
-        input.ptr->refInc();
+      // NOTE: releasing the old object comes last, it may destroy 'input'
+      //       (a handle that lives inside that object, as in 'p = p->next')
+      T *const old = ptr;
+      ptr          = input.ptr;
       if (ptr)
-        ptr->refDec();
-      ptr = input.ptr;
+        ptr->refInc();
+      if (old)
+        old->refDec();
       return *this;
     }
 
     template <typename T>
     inline IntrusivePtr<T> &IntrusivePtr<T>::operator=(IntrusivePtr &&input)
     {
-      if (ptr)
-        ptr->refDec();
-      ptr = input.ptr;
-      input.ptr = nullptr;
+      if (this == &input)
+        return *this;
+
+      // NOTE: take over the reference before the old object is released,
+      //       releasing it may destroy 'input' and what 'input' refers to
+      T *const old = ptr;
+      ptr          = input.ptr;
+      input.ptr    = nullptr;
+      if (old)
+        old->refDec();
       return *this;
     }
 
     template <typename T>
     inline IntrusivePtr<T> &IntrusivePtr<T>::operator=(T *input)
     {
-      if (input)
-        input->refInc();
+      T *const old = ptr;
+      ptr          = input;
       if (ptr)
-        ptr->refDec();
-      ptr = input;
+        ptr->refInc();
+      if (old)
+        old->refDec();
       return *this;
     }
 
